@@ -934,6 +934,7 @@ Proof.
       apply pick_distinct_ok_spec in Hok. destruct Hok as (A & B & C).
       exists xs. inversion H; subst. auto.
     + destruct (n =? i64_min); [inversion H; subst; discriminate|].
+      destruct (1048576 <? - n); [inversion H; subst; discriminate|].
       destruct (oracle_bulks o) as [xs|]; [|inversion H; subst; discriminate].
       destruct (pick_repeat_ok (m0 :: s0) (- n) xs) eqn:Hok; [|inversion H; subst; discriminate].
       apply pick_repeat_ok_spec in Hok. destruct Hok as (A & C).
@@ -957,12 +958,13 @@ Proof.
 Qed.
 (** every negative count above i64::MIN is followed; i64::MIN is refused ("value is out of range") *)
 Lemma srandmember_follows_neg n s xs :
-  s <> [] -> n < 0 -> n <> i64_min -> len xs = - n -> incl xs s ->
+  s <> [] -> n < 0 -> - n <= 1048576 -> len xs = - n -> incl xs s ->
   e_srandmember (Some n) (Some (FArray (map FBulk xs))) (Some (VSet s)) = (r_bulks (bsort xs), Keep).
 Proof.
   intros Hne Hn Hmin A C. unfold e_srandmember. destruct s as [|m0 s0]; [congruence|].
   replace (0 <=? n) with false by (symmetry; apply Z.leb_gt; lia).
-  replace (n =? i64_min) with false by (symmetry; apply Z.eqb_neq; exact Hmin).
+  replace (n =? i64_min) with false by (symmetry; apply Z.eqb_neq; unfold i64_min; lia).
+  replace (1048576 <? - n) with false by (symmetry; apply Z.ltb_ge; lia).
   cbn [oracle_bulks]. rewrite all_bulks_map.
   replace (pick_repeat_ok (m0 :: s0) (- n) xs) with true by (symmetry; apply pick_repeat_ok_spec; auto).
   reflexivity.
@@ -970,6 +972,16 @@ Qed.
 Lemma srandmember_min_refused o s : s <> [] ->
   e_srandmember (Some i64_min) o (Some (VSet s)) = (r_err, Keep).
 Proof. intros Hne. unfold e_srandmember. destruct s; [congruence | reflexivity]. Qed.
+(** since 9dd4676 a request for more than 2^20 draws is refused: the work of SRANDMEMBER is
+    bounded by a constant plus the size of the set, whatever the numeric argument *)
+Lemma srandmember_cap_refused n o s : s <> [] -> n < - 1048576 ->
+  e_srandmember (Some n) o (Some (VSet s)) = (r_err, Keep).
+Proof.
+  intros Hne Hn. unfold e_srandmember. destruct s; [congruence|].
+  replace (0 <=? n) with false by (symmetry; apply Z.leb_gt; lia).
+  destruct (n =? i64_min); [reflexivity|].
+  replace (1048576 <? - n) with true by (symmetry; apply Z.ltb_lt; lia). reflexivity.
+Qed.
 
 (** ------------------------------------------------------------------ *)
 (** * set algebra *)
@@ -1467,7 +1479,7 @@ Qed.
 Lemma srandmember_every_choice n s xs : s <> [] -> incl xs s ->
   (0 <= n -> len xs = Z.min n (len s) -> NoDup xs ->
    e_srandmember (Some n) (Some (FArray (map FBulk xs))) (Some (VSet s)) = (r_bulks (bsort xs), Keep)) /\
-  (n < 0 -> n <> i64_min -> len xs = - n ->
+  (n < 0 -> - n <= 1048576 -> len xs = - n ->
    e_srandmember (Some n) (Some (FArray (map FBulk xs))) (Some (VSet s)) = (r_bulks (bsort xs), Keep)).
 Proof.
   intros Hne Hin. split.
